@@ -802,7 +802,7 @@ func checkStream(t vkit.TB, c Case) {
 	}
 	if f := judge(c, o); f != nil {
 		vkit.Violation(t, f.key, f.detail, Replay{Stream: &c})
-		vkit.Case("known:"+f.key, false, "")
+		vkit.Case("known(stream):"+f.key, false, "")
 		return
 	}
 	big, between, sig := c.features()
@@ -859,11 +859,23 @@ func checkStream(t vkit.TB, c Case) {
 // ---------------------------------------------------------------------------
 // generators
 
+// pick draws an index with the given weights (rapid's IntRange is biased towards small
+// values, SampledFrom over an expanded table is uniform).
+func pick(t *rapid.T, label string, weights ...int) int {
+	var tab []int
+	for i, w := range weights {
+		for j := 0; j < w; j++ {
+			tab = append(tab, i)
+		}
+	}
+	return rapid.SampledFrom(tab).Draw(t, label)
+}
+
 var sizeTable = []int{0, 1, 100, maxFrame - 1, maxFrame, maxFrame + 1, 2 * maxFrame, 2*maxFrame + 1, 200 * 1024, 1 << 20}
 
 func genSize(t *rapid.T, label string, budget *int) int {
 	var n int
-	switch k := rapid.IntRange(0, 13).Draw(t, label+"Class"); {
+	switch k := pick(t, label+"Class", 1, 1, 1, 1, 1, 1, 1, 1, 1, 1, 1, 1, 1, 1); {
 	case k < len(sizeTable):
 		n = sizeTable[k]
 	case k == 10 || k == 11:
@@ -884,7 +896,7 @@ var controlTypes = []byte{crossnode.FrameTypeTargetReady, crossnode.FrameTypeAck
 	crossnode.FrameTypeDNSQuery, crossnode.FrameTypeDNSResponse, crossnode.FrameTypeCommand, crossnode.FrameTypeCommandResponse}
 
 func genInjLen(t *rapid.T) int {
-	switch rapid.IntRange(0, 5).Draw(t, "injLenClass") {
+	switch pick(t, "injLenClass", 1, 1, 1, 1, 2) {
 	case 0:
 		return 0
 	case 1:
@@ -900,9 +912,9 @@ func genInjLen(t *rapid.T) int {
 
 func genInject(t *rapid.T) *Inject {
 	in := &Inject{}
-	if rapid.IntRange(0, 7).Draw(t, "injID") < 5 {
+	if pick(t, "injID", 5, 3) == 0 {
 		in.ID = "foreign"
-		switch k := rapid.IntRange(0, 9).Draw(t, "injType"); {
+		switch k := pick(t, "injType", 1, 1, 1, 1, 1, 1, 1, 1, 1, 1); {
 		case k < 5:
 			in.Type = crossnode.FrameTypeData
 		case k == 5:
@@ -921,7 +933,7 @@ func genInject(t *rapid.T) *Inject {
 		return in
 	}
 	in.ID = "own"
-	switch k := rapid.IntRange(0, 5).Draw(t, "ownType"); {
+	switch k := pick(t, "ownType", 1, 1, 1, 1, 1, 1); {
 	case k == 0:
 		in.Type = crossnode.FrameTypeData // empty data frame
 		in.Len = 0
@@ -949,7 +961,7 @@ func realisticID(t *rapid.T, label string) string {
 }
 
 func genID(t *rapid.T, label string) string {
-	switch rapid.IntRange(0, 6).Draw(t, label+"Class") {
+	switch pick(t, label+"Class", 1, 1, 1, 1, 1, 2) {
 	case 0:
 		return ""
 	case 1:
@@ -1013,37 +1025,26 @@ func genReadSizes(t *rapid.T, label string) []int {
 }
 
 func genCase(t *rapid.T) Case {
-	c := Case{Seed: rapid.Uint32().Draw(t, "seed"), Tracker: rapid.IntRange(0, 2).Draw(t, "tracker")}
-	collide := rapid.IntRange(0, 99).Draw(t, "idMode") < 12
+	c := Case{Seed: rapid.Uint32().Draw(t, "seed"), Tracker: pick(t, "tracker", 2, 1, 1)}
+	collide := pick(t, "idMode", 88, 12) == 1
 	c.OwnID, c.ForeignID = genIDs(t, collide)
 	budget := vkit.Pick(3<<20, 8<<20)
 	nops := rapid.IntRange(1, 9).Draw(t, "nops")
 	for i := 0; i < nops; i++ {
-		if rapid.IntRange(0, 9).Draw(t, "opKind") < 6 {
+		if pick(t, "opKind", 6, 4) == 0 {
 			c.Ops = append(c.Ops, Op{Write: genSize(t, "w", &budget)})
 		} else {
 			c.Ops = append(c.Ops, Op{Inj: genInject(t)})
 		}
 	}
-	if !collide && rapid.IntRange(0, 4).Draw(t, "side") == 0 {
+	if !collide && pick(t, "side", 4, 1) == 1 {
 		sb := 1 << 20
 		n := rapid.IntRange(1, 4).Draw(t, "nside")
 		for i := 0; i < n; i++ {
 			c.Side = append(c.Side, genSize(t, "side", &sb))
 		}
 	}
-	switch k := rapid.IntRange(0, 99).Draw(t, "ending"); {
-	case k < 38:
-		c.Ending = endCloseWrite
-	case k < 62:
-		c.Ending = endClose
-	case k < 76:
-		c.Ending = endTCPClose
-	case k < 90:
-		c.Ending = endCutFin
-	default:
-		c.Ending = endCutRst
-	}
+	c.Ending = []string{endCloseWrite, endClose, endTCPClose, endCutFin, endCutRst}[pick(t, "ending", 38, 24, 14, 14, 10)]
 	if c.Ending == endCutFin || c.Ending == endCutRst {
 		c.CutLen = rapid.SampledFrom([]int{1, 100, 5000, maxFrame}).Draw(t, "cutLen")
 		if rapid.Bool().Draw(t, "cutInHeader") {
@@ -1054,7 +1055,7 @@ func genCase(t *rapid.T) Case {
 	}
 	c.ReadSizes = genReadSizes(t, "reads")
 	if c.Ending == endCloseWrite {
-		c.Duplex = rapid.IntRange(0, 9).Draw(t, "duplex") < 4
+		c.Duplex = pick(t, "duplex", 6, 4) == 1
 		rb := 1 << 20
 		n := rapid.IntRange(0, 4).Draw(t, "nrev")
 		for i := 0; i < n; i++ {
@@ -1067,7 +1068,7 @@ func genCase(t *rapid.T) Case {
 
 // TestStream is the generated search over write scripts, injected frames, endings and read sizes.
 func TestStream(t *testing.T) {
-	vkit.Check(t, 640, 6000, func(t *rapid.T) {
+	vkit.Check(t, 2400, 24000, func(t *rapid.T) {
 		checkStream(t, genCase(t))
 	})
 }
